@@ -226,6 +226,23 @@ def r2_state_advances_together(ctx, rid):
             ctx.violation(rid, f, f.node, f"after a record the row counter is {sp.simplify(ex.cur)} instead of n0 + 1", facts, label=label + " inc")
         else:
             ctx.ok(rid, f, f.node, "one time appended, one row stored at the pre-update counter, counter advanced by one", facts, label=label)
+    # a refused update (explicit raise) leaves the history exactly as it was: times, rows and counter are used together by
+    # __call__ (clamp against the last time, row n-1), so a time appended before the refusal makes later queries read row n
+    refusing = [p for p in paths if p[-1] is cfg.RAISE and len(p) >= 2 and isinstance(p[-2], ast.Raise)]
+    for p in refusing:
+        ex = _Exec(ctx, f)
+        for s in p[:-2]:
+            if isinstance(s, ast.stmt):
+                ex.step(s)
+        changed = [(k, norm(st)) for k, st, _ in ex.events]
+        label = "refusing path " + cfg.path_str(p)
+        if changed:
+            ctx.violation(rid, f, ex.events[0][1], f"an update that is refused (raise at line {p[-2].lineno}) has already changed the history "
+                                                   f"({', '.join(k for k, _ in changed)}): times, rows and counter no longer describe the same records",
+                          {"path": cfg.path_str(p), "events": changed}, label="refused update leaves the history unchanged")
+        else:
+            ctx.ok(rid, f, p[-2], "a refused update changes neither times, rows nor counter", {"path": cfg.path_str(p)},
+                   label="refused update leaves the history unchanged")
 
 
 # ------------------------------------------------------------------------------------------------
